@@ -19,9 +19,42 @@ package requestcontext
 import (
 	"net/http"
 	"net/url"
+	"strings"
 
 	"github.com/dadrus/heimdall/internal/x"
 )
+
+const upperHex = "0123456789ABCDEF"
+
+// escapedPath returns the path of the given url in the spelling it has been received in. Differently
+// to url.EscapedPath, which replaces a spelling containing octets, which are not allowed in a path
+// (like '"', '<', '|' or any non ASCII octet), by the encoding of the decoded path, and by that turns
+// e.g. an encoded slash (%2F) into a path separator, only the not allowed octets are percent-encoded.
+// All escape sequences present in the received path are preserved as is.
+func escapedPath(uri *url.URL) string {
+	rawPath := uri.RawPath
+	if len(rawPath) == 0 {
+		return uri.EscapedPath()
+	}
+
+	var result strings.Builder
+
+	for idx := range len(rawPath) {
+		octet := rawPath[idx]
+
+		switch {
+		case 'a' <= octet && octet <= 'z', 'A' <= octet && octet <= 'Z', '0' <= octet && octet <= '9',
+			strings.IndexByte("-_.~!$&'()*+,;=:@/[]%", octet) >= 0:
+			result.WriteByte(octet)
+		default:
+			result.WriteByte('%')
+			result.WriteByte(upperHex[octet>>4])
+			result.WriteByte(upperHex[octet&15]) //nolint:mnd
+		}
+	}
+
+	return result.String()
+}
 
 func extractURL(req *http.Request) *url.URL {
 	var (
@@ -42,13 +75,13 @@ func extractURL(req *http.Request) *url.URL {
 
 	if val := req.Header.Get("X-Forwarded-Uri"); len(val) != 0 {
 		if forwardedURI, err := url.Parse(val); err == nil {
-			rawPath = forwardedURI.EscapedPath()
+			rawPath = escapedPath(forwardedURI)
 			query = forwardedURI.Query().Encode()
 		}
 	}
 
 	if len(rawPath) == 0 {
-		rawPath = req.URL.EscapedPath()
+		rawPath = escapedPath(req.URL)
 	}
 
 	if len(query) == 0 {
